@@ -107,7 +107,10 @@ JudgeOk(r) ==
           LET letNames == LetNames(rout)
               undeclared == {nm \in RpNames(rout) : nm \notin letNames /\ nm \notin Names(rin)}
               hard == {p \in probs : p \notin HygDevs}
+              \* a temporary that does not carry the reserved prefix is not protected by the refusal rule
+              unreserved == inj \cap LetNamesUnreserved(rout)
           IN IF hard # {} THEN Verdict(r.rid, "C06", "reject", hard)
+             ELSE IF unreserved # {} THEN Verdict(r.rid, "C06", "reject", <<"injected names outside the reserved prefix", unreserved>>)
              ELSE IF undeclared # {} THEN Verdict(r.rid, "C06", "reject", <<"injected names left undeclared", undeclared>>)
              ELSE IF probs # {} THEN Verdict(r.rid, "C06", "dev", probs)
              ELSE Verdict(r.rid, "C06", IF inj # {} THEN "ok" ELSE "ok0", Cardinality(inj))
